@@ -140,6 +140,38 @@ func ruleC18(c *Ctx) {
 		R.OK("module#no-alias-of-package-level-storage", "-", fmt.Sprintf("%d functions, %d package-level variables", len(a.Funcs()), len(globals)))
 	}
 
+	// ---- C18.6 arguments are not retained ----
+	c.checkNoRetainedStorage("C18.6")
+
+	// ---- C18.7 function values handed out are stateless ----
+	R.Rule("C18.7", "function values handed to the caller carry no mutable state: a closure that a library function returns (a decode option) writes none of its captured variables, so one option value may be shared by any number of concurrent or successive Decode calls", 1)
+	for _, fn := range a.Funcs() {
+		if _, lib := c.libraryFunc(fn); !lib {
+			continue
+		}
+		for _, mc := range returnedClosures(fn) {
+			cl, _ := mc.Fn.(*ssa.Function)
+			if cl == nil {
+				continue
+			}
+			ok := true
+			for _, w := range a.WritesOf(cl) {
+				if w.Root.Kind == "freevar" {
+					ok = false
+					name := w.Root.Name
+					var i int
+					if _, err := fmt.Sscan(w.Root.Name, &i); err == nil && i < len(cl.FreeVars) {
+						name = cl.FreeVars[i].Name()
+					}
+					R.Bad(fmt.Sprintf("%s#returned-closure-writes:%s", c.P.FuncName(fn), name), c.Pos(w.Ins), "a returned function value writes only what it is handed", "writes its captured variable "+name+" via "+w.Via)
+				}
+			}
+			if ok {
+				R.OK(c.P.FuncName(fn)+"#returned-closure-stateless", c.Pos(mc))
+			}
+		}
+	}
+
 	// ---- C18.2 inputs are read-only ----
 	R.Rule("C18.2", "inputs are read-only: no function of package decode writes through a byte-slice/buffer parameter; Color.Resolve, the palette/viewBox helpers and the colour predicates write through none of their parameters; no Destination method can receive a slice or pointer (signature check), so the encoded bytes cannot leak", 40)
 	bufT := c.Named("decode", "buffer")
@@ -310,4 +342,112 @@ func recvNamed(fn *ssa.Function) string {
 		return n.Obj().Name()
 	}
 	return ""
+}
+
+
+// dataStorage reports whether a value of type t is a window onto storage the caller may go on writing (a slice, a
+// map, a pointer to an array or to a basic value) as opposed to a handle on an object that is meant to be shared
+// (an interface value, a pointer to a struct, a function).
+func dataStorage(t types.Type) bool {
+	switch u := t.Underlying().(type) {
+	case *types.Slice, *types.Map:
+		return true
+	case *types.Pointer:
+		switch u.Elem().Underlying().(type) {
+		case *types.Array, *types.Basic, *types.Slice, *types.Map:
+			return true
+		}
+	}
+	return false
+}
+
+// checkNoRetainedStorage: no library function keeps a slice, map or array pointer it was handed in memory that
+// outlives the call (its receiver, another argument, a package-level variable). What a pipeline was configured with
+// is then a snapshot: the caller's later writes to its own slice cannot change what the pipeline emits, and two
+// pipelines configured from one slice share nothing.
+func (c *Ctx) checkNoRetainedStorage(rule string) {
+	R := c.R
+	a := c.effects()
+	R.Rule(rule, "arguments are consumed, not kept: no library function stores a slice, map or array pointer derived from one of its parameters into its receiver, another argument or a package-level variable (directly or through a callee) - the configured transform, gradient stops, palette and input bytes are snapshots, so a caller reusing its slice afterwards cannot change what is emitted", 20)
+	n, bad := 0, 0
+	for _, fn := range a.Funcs() {
+		if isPkgInit(fn) {
+			continue
+		}
+		if _, lib := c.libraryFunc(fn); !lib {
+			continue
+		}
+		hasData := false
+		for _, p := range fn.Params {
+			if dataStorage(p.Type()) {
+				hasData = true
+			}
+		}
+		kept := 0
+		for _, rt := range a.RetainsOf(fn) {
+			if !dataStorage(rt.Type) {
+				continue
+			}
+			kept++
+			bad++
+			pn := fmt.Sprint(rt.Param)
+			if rt.Param < len(fn.Params) {
+				pn = fn.Params[rt.Param].Name()
+			}
+			R.Bad(fmt.Sprintf("%s#retains:%s", c.P.FuncName(fn), pn), c.Pos(rt.Ins), "slice/map arguments are copied, not kept", fmt.Sprintf("a %s derived from parameter %s is stored into %s via %s", rt.Type.String(), pn, rt.Into.String(), rt.Via))
+		}
+		if hasData {
+			n++
+			if kept == 0 {
+				R.OK(c.P.FuncName(fn)+"#retains-no-argument-storage", c.FPos(fn))
+			}
+		}
+	}
+	_ = n
+}
+
+
+// returnedClosures lists the closures created in fn that fn returns (directly, through a conversion to a named
+// function type, or through a phi).
+func returnedClosures(fn *ssa.Function) []*ssa.MakeClosure {
+	var out []*ssa.MakeClosure
+	for _, b := range fn.Blocks {
+		for _, ins := range b.Instrs {
+			mc, ok := ins.(*ssa.MakeClosure)
+			if !ok {
+				continue
+			}
+			seen := map[ssa.Value]bool{}
+			var returned func(v ssa.Value) bool
+			returned = func(v ssa.Value) bool {
+				if seen[v] || v.Referrers() == nil {
+					return false
+				}
+				seen[v] = true
+				for _, r := range *v.Referrers() {
+					switch x := r.(type) {
+					case *ssa.Return:
+						return true
+					case *ssa.ChangeType:
+						if returned(x) {
+							return true
+						}
+					case *ssa.MakeInterface:
+						if returned(x) {
+							return true
+						}
+					case *ssa.Phi:
+						if returned(x) {
+							return true
+						}
+					}
+				}
+				return false
+			}
+			if returned(mc) {
+				out = append(out, mc)
+			}
+		}
+	}
+	return out
 }
